@@ -115,8 +115,12 @@ fn step_bookkeeping<I: Inp>(i: &mut I, which: u8) {
     vassert!(i, g[0] == lo, "C15:first-marker-is-running-minimum");
     vassert!(i, g[4] == hi, "C15:last-marker-is-running-maximum");
     vassert!(i, beq(q.p(), p), "C15:p-reads-back-exactly");
-    vcover!(i, x < h[0], "new-minimum-branch");
-    vcover!(i, x > h[4], "new-maximum-branch");
+    // reachability witnesses: each variant restricts the observation to one cell, so it can only witness its own branch
+    match which {
+        0 => vcover!(i, x < h[0], "new-minimum-branch"),
+        1 => vcover!(i, x > h[4], "new-maximum-branch"),
+        _ => vcover!(i, x > h[1] && x < h[3], "interior-cell-branch"),
+    }
     vcover!(i, k[2] != n[2] && k[2] != n[2] + 1, "middle-marker-adjusted-down");
 }
 
